@@ -726,10 +726,32 @@ func (ex *Exec) execIf(g *G, fr *Frame, in *ssa.If) {
 		}
 		return
 	}
+	if ex.merging > 0 {
+		if !ex.tryMerge(g, fr, in, c) {
+			panic(mergeAbort{"nested region not mergeable"})
+		}
+		return
+	}
+	// Let the solver say whether the path condition already decides c.
+	switch ex.determine(c) {
+	case 0:
+		ex.assume(c)
+		ex.jump(fr, fr.block.Succs[0])
+		return
+	case 1:
+		ex.assume(ex.ts.Not(c))
+		ex.jump(fr, fr.block.Succs[1])
+		return
+	}
 	if !ex.cfg.NoMerge && ex.tryMerge(g, fr, in, c) {
 		return
 	}
-	if ex.branchAt(c, fr, in) {
+	k := forkKey{fr, in}
+	ex.forkCount[k]++
+	if ex.forkCount[k] > ex.cfg.Unwind {
+		ex.end(OutUnwind, fmt.Sprintf("more than %d symbolic iterations at %s", ex.cfg.Unwind, ex.where()))
+	}
+	if ex.forkBoth(c) {
 		ex.jump(fr, fr.block.Succs[0])
 	} else {
 		ex.jump(fr, fr.block.Succs[1])
